@@ -33,6 +33,8 @@ def run(prog, chk):
     retry_terminates(prog, chk)
     retry_progress(prog, chk)
     containment_every_target(prog, chk)
+    from props import C04
+    C04.endpoints_overwritten_only_when_absent(prog, chk)  # an end point that still holds an unresolved reference is not "absent"
     from props import geomalg
     geomalg.check_sites(prog, chk, "C10")  # the box of a referenced element is the one its attributes define (a defaulted coordinate is a silent resolution)
     C06.output_order(prog, chk)
